@@ -37,5 +37,14 @@ func main() {
 		os.Exit(64)
 	}
 	vf.CollectRaces(run)
+	if p := os.Getenv("VERIF_MERGE_DUMP"); p != "" && *prop == "C20" {
+		// the reader half of the event clause (reader rig, profile C20R) ran first and dumped its Run
+		if err := run.MergePrefixed(p, "reader_"); err != nil {
+			run.Inconclusive("the reader part (reader rig) left no result: " + err.Error())
+		}
+		run.Floor("reader_create_collection_events", run.Pick(10, 200))
+		run.Floor("reader_create_partition_events_of_partitions_created_later_than_their_collection", run.Pick(10, 200))
+		run.Rule += " PLUS the reader part (counters reader_*, reader rig profile C20R): the create-collection / create-partition events as the REAL channel manager emits them (StartReadCollection / AddPartition for objects that do not exist downstream yet) must carry the creation time of the collection resp. of the PARTITION and the source names."
+	}
 	os.Exit(run.Finish(vf.Out()))
 }
